@@ -143,4 +143,16 @@ PROPS = {
         ],
         "expected_probes": ["Evict", "SchemaChange", "unprepared_answers", "reexecutions_checked", "rows_checked", "metadata_id_mismatch"],
     },
+    "C12": {
+        "engine": "dsim",
+        "level": "exploration",
+        "technique": "deterministic simulation with fault injection (seeded cluster layouts; the mock recomputes token, replicas and shard with independent implementations of Murmur3, ring walk, NetworkTopologyStrategy and shard-of-token)",
+        "rule": "each run = a mock cluster of 1..6 nodes x 1..3 datacenters x 2 racks, 1..6 random vnode tokens per node, shard count 0 (Cassandra-like)/1/2/3/4/8 with msb-ignore 0/7/12, keyspaces with SimpleStrategy(rf 1..3) and NetworkTopologyStrategy(rf 0..3 per DC), pool PerShard(n)/PerHost(n) n=1..3, shard-aware port advertised or not, load-balancing preference none / DC / DC+rack with or without DC failover; optionally a node restart (possibly resharded) before the measured phase; then 30..150 executions of prepared statements with 1-, 2- and 3-component partition keys bound through permuted markers and random keys. Non-trivial = at least one first attempt was checked against a non-empty reachable+permitted replica set. Distinct = distinct (poll-sequence hash, event-log hash).",
+        "assumptions": COMMON_ASSUMPTIONS + [
+            "oracle per execution, from the FIRST frame of its marker at the mock: with R = model replicas(token) restricted to nodes the driver reported connected right before submission, up, and permitted by the load-balancing configuration (preferred DC only when failover is off): if R is non-empty the frame arrived at a node of R, in the preferred DC when R has a member there; on a sharded replica node the frame arrived on a connection whose server-assigned shard equals the model's shard-of(token) whenever the mock sees a live pool connection to that shard",
+            "the model (Murmur3 with Cassandra's signed-tail quirk, compound-key serialisation, ring walk, Cassandra's NTS rack rule, ScyllaDB's biased-token shard function) is written from the algorithm descriptions and self-checked against the Murmur3 vectors present as literals in the repo's tests",
+            "tablet-based routing is exercised by the C15 end-to-end part, not here",
+        ],
+        "expected_probes": ["first_attempts_checked", "shard_checked", "NodeRestart"],
+    },
 }
